@@ -186,16 +186,19 @@ def _worker(args):
             except (ValueError, KeyError):
                 pass
         ctx.count('regress_cases', len(saved) if widx == 0 else 0)
+        n_explicit = 0
         for i, case in enumerate(_it.chain(saved, prop.explicit_cases(ctx))):
             if i % nworkers != widx:
                 continue
+            if i >= len(saved):
+                n_explicit += 1
             f = ctx.run_case(case)
             if f is not None and SURVEY:
                 ctx.count('SURVEY ' + f.signature)
                 ctx.survey.setdefault('SURVEY ' + f.signature, (case, f.to_json()))
             elif f is not None and len(ctx.violations) < 3:
                 ctx.violations.append((case, f))
-        ctx.count('explicit_cases_run', 0)
+        ctx.count('explicit_cases_run', n_explicit)
         # 2. generated cases
         if nexamples > 0 and not ctx.violations:
             _run_hypothesis(prop, ctx, nexamples, _hyp_seed(seed, pid, widx))
